@@ -388,6 +388,22 @@ pub fn run_c19(cfg: &Cfg) {
         }
         let bb = s.pattern(&base, &opts, false, false);
         let base_tree = tree_of(&base);
+        // the tree the documented parse rules give for this AST (independent of the parser)
+        if let (Some(exp), Some((got, _))) = (expect_tree(ast), base_tree.as_ref()) {
+            s.count("expected_tree_cases");
+            let ok = match &exp {
+                Expect::Tree(t) => *got == t.join(" "),
+                Expect::Error(k) => got.starts_with(&format!("parse:{}", k)),
+            };
+            if !ok {
+                let has_cond = base.contains("(?(");
+                s.violation(
+                    if has_cond { "C15" } else { "C19" },
+                    "parse-tree",
+                    &[("pattern", base.clone()), ("tree", got.clone()), ("expected_tree", format!("{:?}", exp))],
+                );
+            }
+        }
         let base_ans: Option<Vec<String>> = bb.re.as_ref().map(|_| {
             let mut v = Vec::new();
             for t in &txts {
@@ -458,6 +474,78 @@ pub fn run_c19(cfg: &Cfg) {
                         );
                     }
                 }
+            }
+        }
+    }
+    s.finish();
+}
+
+
+/// expected-tree oracle alone (fast): every generated AST with conditionals at every position
+pub fn run_parsetree(cfg: &Cfg) {
+    let mut s = Session::new(&cfg.out);
+    let thorough = cfg.tier == "thorough";
+    let g = Grammar {
+        atoms: {
+            let mut v = atoms_full();
+            v.retain(|a| !matches!(a, P::Raw(_)));
+            v
+        },
+        quants: quants_full(),
+        modes: vec![Mode::Greedy, Mode::Lazy, Mode::Poss],
+        looks: vec!["=", "!", "<=", "<!"],
+        groups: true,
+        atomic: true,
+        brefs: true,
+        conds: true,
+        empty_loops: true,
+    };
+    let mut small = g.clone();
+    small.atoms = atoms_core();
+    small.quants = quants_core();
+    let mut asts: Vec<P> = Vec::new();
+    let mut memo = Vec::new();
+    for n in 1..=4 {
+        asts.extend(small.exact(n, &mut memo));
+    }
+    let ctxs = contexts(true);
+    for c in &ctxs {
+        for f in fillers() {
+            asts.push(c(&f));
+        }
+    }
+    let mut r = Rng(cfg.seed ^ 0x7ee);
+    for _ in 0..(if thorough { 200000 } else { 40000 }) {
+        let mut groups = 0;
+        let depth = 2 + r.below(3);
+        let p = g.random(&mut r, depth, &mut groups);
+        let total = count_groups(&p);
+        asts.push(clamp_refs(&p, total));
+    }
+    for (i, ast) in asts.iter().enumerate() {
+        if i % cfg.nshards != cfg.shard {
+            continue;
+        }
+        let base = to_string(ast);
+        if base.len() > 80 {
+            continue;
+        }
+        if let (Some(exp), Some((got, _))) = (expect_tree(ast), tree_of(&base)) {
+            s.count("expected_tree_cases");
+            if base.contains("(?(") {
+                s.count("expected_tree_cases_with_conditional");
+            }
+            let ok = match &exp {
+                Expect::Tree(t) => got == t.join(" "),
+                Expect::Error(k) => got.starts_with(&format!("parse:{}", k)),
+            };
+            if !ok {
+                let has_cond = base.contains("(?(");
+                s.violation(
+                    if has_cond { "C15" } else { "C19" },
+                    "parse-tree",
+                    &[("pattern", base.clone()), ("tree", got.clone()), ("expected_tree", format!("{:?}", exp))],
+                );
             }
         }
     }
